@@ -1,73 +1,57 @@
 (* C02 - Typed MessagePack decoding is indistinguishable from generic decoding.
    Only property statements live here; proofs are in Proofs.v.  Every statement quantifies
-   over ALL msgpack ASTs [a], ALL float / sanitiser semantics [o] and ALL clock values. *)
+   over ALL msgpack ASTs [a], ALL float / sanitiser semantics [o] and ALL clock values.
+   The model is the code as of commit 1ff6fb4 (typed path falls back on a non-array value
+   following an array value for the same column key, and decodes-and-discards the values it
+   does not use); the equivalence holds without any guard. *)
 From Coq Require Import List ZArith NArith Bool.
 From Arc Require Import Lib.AList MsgPack.Model MsgPack.Proofs.
 Import ListNotations.
 Open Scope Z_scope.
 
-(* Whenever the typed fast path produces a record (it does not fall back), the generic path
-   accepts the same payload and stores the same batch: same measurement, same row count, same
-   column set, and for every column the same type, values and validity (presence and bits);
-   the time column is compared whenever the payload carries one (otherwise both runs generate
-   it from their own clock).  Guard = the two classes in which the CURRENT code differs (see the
-   refutations below): a duplicate column key whose later value is not an array, and a value
-   the typed path skips without decoding that the library's generic decode rejects. *)
-Theorem C02_equiv_guarded : forall (o : ops) (now_typed now_generic : Z) (a : ast) m b,
-  typed o now_typed a = Some (m, b) ->
-  guard o a = true ->
+(* Whenever the typed fast path produces a record, the generic path accepts the same payload
+   and stores the same batch: same measurement, same row count, same column set, and for every
+   column the same type, values and validity (presence and bits); the time column is compared
+   whenever the payload carries one (otherwise both runs generate it from their own clock). *)
+Theorem C02_equiv : forall (o : ops) (now_typed now_generic : Z) (a : ast) m b,
+  typed o now_typed a = TOk (m, b) ->
   exists b', generic o now_generic a = OOk [ICol m (Some b')] /\
              same_batch (payload_has_time a) b b'.
-Proof. exact equiv_guarded. Qed.
-Print Assumptions C02_equiv_guarded.
+Proof. exact equiv. Qed.
+Print Assumptions C02_equiv.
 
 (* When the typed path bails out, Decode IS the generic path (no side effect, same input). *)
 Theorem C02_fallback_total : forall (o : ops) (now : Z) (a : ast),
-  typed o now a = None -> decode_with_typed o now a = generic o now a.
+  typed o now a = TBail -> decode_with_typed o now a = generic o now a.
 Proof. exact fallback_total. Qed.
 Print Assumptions C02_fallback_total.
 
-(* Acceptance is the same with the fast path on and off: a hit is accepted by both (whatever
-   the two clocks are), a miss runs literally the generic path. *)
-Theorem C02_accept_iff_guarded : forall (o : ops) (now_typed now_generic : Z) (a : ast),
-  guard o a = true ->
-  (typed o now_typed a <> None ->
-   accepted (decode_with_typed o now_typed a) = true /\ accepted (generic o now_generic a) = true) /\
-  (typed o now_typed a = None -> decode_with_typed o now_typed a = generic o now_typed a).
-Proof. exact accept_guarded. Qed.
-Print Assumptions C02_accept_iff_guarded.
+(* Acceptance is the same with the fast path on and off, for every input: a hit is accepted by
+   both (whatever the two clocks are); a miss runs literally the generic path; and when the
+   library panics while the typed path decodes a value it discards, the generic path cannot
+   decode the document either (it is never accepted). *)
+Theorem C02_accept_iff : forall (o : ops) (now_typed now_generic : Z) (a : ast),
+  (forall r, typed o now_typed a = TOk r ->
+     accepted (decode_with_typed o now_typed a) = true /\ accepted (generic o now_generic a) = true) /\
+  (typed o now_typed a = TBail -> decode_with_typed o now_typed a = generic o now_typed a) /\
+  (typed o now_typed a = TPanic ->
+     accepted (decode_with_typed o now_typed a) = false /\ accepted (generic o now_generic a) = false).
+Proof. exact accept_iff. Qed.
+Print Assumptions C02_accept_iff.
 
-(* The unguarded equivalence is FALSE for the current code (class 1): for
-   {m:"cpu", columns:{time:[1700000000], a:[1], a:5}} the typed path stores column "a", the
-   generic path (last binding wins, non-array dropped) does not; and for
-   {m:"cpu", columns:{a:[1], a:5}} the typed path accepts a write the generic path rejects. *)
-Theorem C02_equiv_refuted : forall (o : ops) (now_typed now_generic : Z),
-  (sig_dup witness_dup = true /\ sig_skip o witness_dup = false /\
-   exists m b, typed o now_typed witness_dup = Some (m, b) /\
-     lookupb w_a (b_cols b) <> None /\
-     exists b', generic o now_generic witness_dup = OOk [ICol m (Some b')] /\
-                lookupb w_a (b_cols b') = None /\
-                ~ same_batch (payload_has_time witness_dup) b b') /\
-  (sig_dup witness_dup_reject = true /\
-   accepted (decode_with_typed o now_typed witness_dup_reject) = true /\
-   generic o now_generic witness_dup_reject = OErr).
-Proof. intros. split; [apply dup_refuted|apply dup_reject_refuted]. Qed.
-Print Assumptions C02_equiv_refuted.
+(* Regression: on the inputs on which the code before 1ff6fb4 differed between the modes, the
+   typed path now falls back (or panics exactly where the generic path panics). *)
+Theorem C02_old_witnesses_fall_back : forall (o : ops) (now : Z),
+  typed o now witness_dup = TBail /\ typed o now witness_dup_reject = TBail /\
+  typed o now witness_skip = TBail /\ typed o now witness_panic = TPanic /\
+  generic o now witness_panic = OPanic.
+Proof. exact old_witnesses_fall_back. Qed.
+Print Assumptions C02_old_witnesses_fall_back.
 
-(* ... and (class 2) for {m:"cpu", columns:{time:[..], a:[1]}, x: ext(5,"ab")}: the typed path
-   skips the value of the unknown key and accepts; msgpack.Unmarshal fails on the unknown
-   extension type, so the generic path rejects the request. *)
-Theorem C02_skip_refuted : forall (o : ops) (now_typed now_generic : Z),
-  sig_dup witness_skip = false /\ sig_skip o witness_skip = true /\
-  accepted (decode_with_typed o now_typed witness_skip) = true /\
-  generic o now_generic witness_skip = OErr.
-Proof. exact skip_refuted. Qed.
-Print Assumptions C02_skip_refuted.
-
-(* Non-vacuity of the guarded theorem: a payload inside the guard on which the typed path hits,
-   with a nil, an all-nil column, a float column holding an int, an invalid-UTF-8 string, a
-   skipped non-array column value and a skipped (decodable) unknown key. *)
-Example C02_guarded_nonvacuous :
+(* Non-vacuity: a payload on which the typed path hits, with a nil, an all-nil column, a float
+   column holding an int, an invalid-UTF-8 string, a discarded non-array column value and a
+   discarded unknown key holding a non-string-keyed map. *)
+Example C02_equiv_nonvacuous :
   let a := MMap [(MStr k_m, MStr [99%N; 112%N; 117%N]);
                  (MStr [120%N], MMap [(MInt KFix 1, MArr [MStr [113%N]])]);
                  (MStr k_columns,
@@ -77,14 +61,7 @@ Example C02_guarded_nonvacuous :
                         (MStr [102%N], MArr [MF32 1069547520%N; MInt KFix 2]);
                         (MStr [110%N], MArr [MNil; MNil]);
                         (MStr [122%N], MInt KFix 7)])] in
-  guard (go_ops []) a = true /\
-  typed (go_ops []) 5 a <> None /\
+  is_hit (typed (go_ops []) 5 a) = true /\
   payload_has_time a = true /\
   outcome_eqb (canon (decode_with_typed (go_ops []) 5 a)) (canon (generic (go_ops []) 9 a)) = true.
-Proof. vm_compute. repeat split; discriminate. Qed.
-
-(* The excluded classes are exactly what the guard removes, and they are non-empty. *)
-Example C02_excluded_classes_nonempty :
-  guard (go_ops []) witness_dup = false /\ guard (go_ops []) witness_dup_reject = false /\
-  guard (go_ops []) witness_skip = false.
 Proof. vm_compute. repeat split. Qed.
